@@ -1742,7 +1742,12 @@ class Calendar(Component):
         result = set()
         for name, value in self.property_items(sorted=False):
             if hasattr(value, "params"):
-                result.add(value.params.get("TZID"))
+                tzid = value.params.get("TZID")
+                if isinstance(tzid, (list, tuple)):
+                    # TZID=A,B is parsed as a list
+                    result.update(tzid)
+                else:
+                    result.add(tzid)
         return result - {None}
 
     def get_missing_tzids(self) -> set[str]:
